@@ -63,18 +63,62 @@ class ValueInfo:
                                                                   sorted(self.getters), sorted(self.calls))
 
 
-class Path:
-    __slots__ = ('events', 'conds', 'end', 'ret', 'env')
+def _canon_test(t):
+    """(text, polarity) of a test with leading `not`s stripped; a bare local name bound to a comparison stands for itself"""
+    pol = True
+    while isinstance(t, ast.UnaryOp) and isinstance(t.op, ast.Not):
+        t = t.operand
+        pol = not pol
+    return normalise(t), pol, t
 
-    def __init__(self, events=None, conds=None, end=None, ret=None, env=None):
+
+def _fact_deps(p, t):
+    names = tuple(sorted((n.id, id(p.env.get(n.id))) for n in ast.walk(t) if isinstance(n, ast.Name)))
+    attrs = frozenset(n.attr for n in ast.walk(t) if isinstance(n, ast.Attribute))
+    calls = any(isinstance(n, ast.Call) for n in ast.walk(t))
+    return names, attrs, calls
+
+
+def _record_outcome(p, test, truth):
+    text, pol, t = _canon_test(test)
+    names, attrs, calls = _fact_deps(p, t)
+    if calls:
+        return              # a call may answer differently next time
+    p.facts[text] = (truth == pol, len(p.events), names, attrs)
+
+
+def _known_outcome(p, test):
+    """the same test (or its negation) was already decided on this path and nothing it reads changed since: a second
+    `if` on it can only go the same way (correlated branches are not independent paths)"""
+    text, pol, t = _canon_test(test)
+    f = p.facts.get(text)
+    if f is None:
+        return None
+    val, at, names, attrs = f
+    now_names, _a, _c = _fact_deps(p, t)
+    if now_names != names:
+        return None
+    for e in p.events[at:]:
+        if e[0] in ('wr', 'wrsub', 'set', 'callm', 'compute') and (len(e) < 2 or not isinstance(e[1], str) or e[0] != 'wr'
+                                                                    or any(e[1].endswith(a) for a in attrs)):
+            if attrs:
+                return None
+    return val if pol else (not val)
+
+
+class Path:
+    __slots__ = ('events', 'conds', 'end', 'ret', 'env', 'facts')
+
+    def __init__(self, events=None, conds=None, end=None, ret=None, env=None, facts=None):
         self.events = events if events is not None else []
         self.conds = conds if conds is not None else []
         self.end = end
         self.ret = ret
         self.env = env if env is not None else {}
+        self.facts = facts if facts is not None else {}     # outcome of tests already taken on this path (see _known_outcome)
 
     def fork(self):
-        return Path(list(self.events), list(self.conds), self.end, self.ret, dict(self.env))
+        return Path(list(self.events), list(self.conds), self.end, self.ret, dict(self.env), dict(self.facts))
 
     def writes(self, field):
         return [e for e in self.events if e[0] == 'wr' and e[1] == field]
@@ -284,13 +328,17 @@ class Typestate:
                         out.append(q)
                         continue
                     known = _const_truth(st.test)
+                    if known is None:
+                        known = _known_outcome(q, st.test)
                     if known is not False:
                         a = q.fork()
                         a.conds.append((st.test, True, ctx[1]))
+                        _record_outcome(a, st.test, True)
                         out.extend(self._block(st.body, [a], ctx))
                     if known is not True:
                         b = q.fork()
                         b.conds.append((st.test, False, ctx[1]))
+                        _record_outcome(b, st.test, False)
                         out.extend(self._block(st.orelse, [b], ctx))
             return out
         if isinstance(st, (ast.For, ast.While)):
